@@ -30,6 +30,7 @@ import (
 	"math/rand"
 	"net/http"
 	"net/http/httptest"
+	"net/url"
 	"os"
 	"path"
 	"reflect"
@@ -776,8 +777,12 @@ func (w *c01World) viewVC(c vc.VerifiableCredential, tb *c01Tables) map[string]a
 				var en revocation.StatusList2021Entry
 				if err := json.Unmarshal(s.Raw(), &en); err != nil {
 					e["entryValid"] = false
+					e["unmarshals"], e["urlOK"], e["entryId"] = false, false, ""
 				} else {
 					e["purpose"], e["listCred"] = en.StatusPurpose, en.StatusListCredential
+					// deepening round: the inputs of StatusList2021Entry.Validate the model computes the verdict from (net/url is a contract)
+					_, uerr := url.ParseRequestURI(en.StatusListCredential)
+					e["unmarshals"], e["urlOK"], e["entryId"] = true, uerr == nil, en.ID
 					if i, err := strconv.Atoi(en.StatusListIndex); err == nil && i >= 0 {
 						e["index"] = i
 					}
